@@ -95,6 +95,7 @@ type pathCtx struct {
 	dom         map[string][]uint64 // exact finite domains of alphabet-constrained byte variables (projection of pc)
 	entangled   map[string]bool     // variables occurring in a multi-variable pc literal
 	domHits     int
+	noWitness   bool
 	s2started   bool
 	declared2   map[string]bool
 	flushed2    int
